@@ -99,7 +99,7 @@ fn copy_worker(work: cbc::Receiver<Operation>, config: &Arc<Config>, updates: Ar
                 // copy_file() sends back its own updates, but we should
                 // send back any errors as they may have occurred
                 // before the copy started..
-                let r = CopyHandle::new(&from, &to, config)
+                let r = CopyHandle::new(&from, &to, config, &updates)
                     .and_then(|hdl| hdl.copy_file(&updates));
                 if let Err(e) = r {
                     updates.send(StatusUpdate::Error(XcpError::CopyError(e.to_string())))?;
